@@ -86,9 +86,9 @@ Definition chk_bmc (tab : list (list N * list N)) (p : bmcp) (dgs : list (list N
   let '(b, s) := bmc_fold tab p bmc_start dgs exp in
   b && option_eqb N.eqb (b_viol s) viol && (b_cnt s =? cnt) && (phase_no (b_ph s) =? ph).
 
-(* get_max_auth_type on a support byte: 999 = None *)
-Definition chk_max_auth (support e : N) : bool :=
-  (match max_auth_type support with Some a => a | None => 999 end) =? e.
+(* get_max_auth_type(supported) on a support byte: 999 = None *)
+Definition chk_max_auth (support : N) (supported : option (list N)) (e : N) : bool :=
+  (match max_auth_type support supported with Some a => a | None => 999 end) =? e.
 
 (* decode_message of the five response classes + completion-code check *)
 Definition r_out {A} (f : A -> list N) (r : res A) : N * list N :=
